@@ -63,7 +63,8 @@ def _oracle(args):
         if k not in old_ids: return 'mapping key %r was not an old id of an identifiable element' % k
     # sequence on one object: rewrite something else first, then this tree
     g = IdGenerator()
-    other = xmlsx.from_sx(xmlsx.norm_sx(gen.gen_akn_tree(rng, maxdepth=3)))
+    # (a third of the time a document of another Akoma Ntoso version, or of no AKN namespace at all: one rewriter serves them all)
+    other = xmlsx.from_sx(xmlsx.norm_sx(gen.gen_akn_tree(rng, maxdepth=3)), *([rng.choice(['http://www.akomantoso.org/2.0', 'urn:x'])] if rng.random() < 0.34 else []))
     # what came before on that object: a whole rewrite; or the public pieces it is made of, called directly (they do not reset); or a
     # rewrite that failed half way (a comment node makes the walk raise after earlier siblings have been numbered)
     how = rng.randrange(4)
